@@ -17,3 +17,6 @@ BOUNDS = {
 OUTSIDE = 'real epoll/TCP behaviour (kernel model), resolver futures (not exercised), connect errors other than success, more than 3 timers or 2 clients, long-running drift of the clock'
 ASSUMPTIONS = ['real src/Socket/Server.cpp and src/Socket/Socket.cpp incl. the epoll based Poll, MultiMap, PoolList, HashSet; kernel calls, clock and threads are engine models; time passes only in epoll_wait time-outs',
                'no native replay (counterexamples are choice/schedule sequences re-executed by the engine)']
+
+TECHNIQUE = 'exhaustive bounded enumeration of timer / client / listener histories, callback actions and interrupt timings of the real Server.cpp + Socket.cpp IR on an engine model of sockets, epoll, eventfd and the clock; discrete choices only, no solver query is discharged (enumeration, not symbolic reasoning)'
+LEVEL_TEXT = 'Bounded model checking by exhaustive enumeration of every history of creations, removals from callbacks, readiness orders and interrupt timings within the bound on the real IR over a kernel + clock model; values are concrete, the solver is not consulted; counterexamples are choice sequences re-executed by the engine (two of the repaired defects were additionally reproduced natively by hand).'
